@@ -171,6 +171,15 @@ func buildGraph(rc resolve.Client, root resolve.VersionKey, s *state) (*resolve.
 		if !hasRouteToRoot(rc, v, connected, s) {
 			return
 		}
+		// A version met inside a dependency loop during this search may
+		// have been marked unconnected only because the version it was
+		// reached from was still undecided. Forget those marks so it is
+		// examined again in its own right.
+		for k, c := range connected {
+			if !c {
+				delete(connected, k)
+			}
+		}
 		if _, ok := ids[p]; !ok {
 			// If this is the root package showing up again due to a
 			// loop, don't add a duplicate node.
